@@ -1,6 +1,8 @@
 """C05 - CLEAR tracking scores follow their definitions for every history."""
 from __future__ import annotations
 
+import os
+
 import itertools
 import math
 from typing import Any, Dict, List, Optional, Sequence, Tuple
@@ -36,7 +38,7 @@ ASSUMPTIONS = [
     "ground-truth counts passed to CLEAR are taken as given",
     "a pair whose matching score is within 1e-6 of the threshold makes the history unjudged (counted)",
 ]
-DECIDING = ["CLEAR.events_judged", "CLEAR.pairs_checked", "C05.switches_seen", "C05.carry_over_seen", "C05.renamed_runs", "C05.named.perfect", "C05.named.reid", "C05.named.swap", "TrackingMetricsScore.wiring_checked"]
+DECIDING = ["CLEAR.events_judged", "CLEAR.histories_compared_with_definition", "C05.switches_seen", "C05.carry_over_seen", "C05.renamed_runs", "C05.named.perfect", "C05.named.reid", "C05.named.swap", "TrackingMetricsScore.wiring_checked"]
 JOBS = {"quick": 4, "thorough": 14}
 CAR = AutowareLabel.CAR
 THR = {MatchingMode.CENTERDISTANCE: 1.0, MatchingMode.PLANEDISTANCE: 1.0, MatchingMode.IOU2D: 0.5, MatchingMode.IOU3D: 0.5}
@@ -107,7 +109,8 @@ def install(taps: Taps, ctx: Ctx) -> None:
 
         return _calculate_tp_fp
 
-    taps.method(clear_mod.CLEAR, "_calculate_tp_fp", pair_factory)
+    if not os.environ.get("VERIF_C05_NO_PAIR_TAP"):  # (switch used to exercise the totals-level judgement on its own)
+        taps.method(clear_mod.CLEAR, "_calculate_tp_fp", pair_factory)
 
     def init_factory(orig):
         def __init__(self, object_results, *args, **kwargs):
@@ -169,20 +172,24 @@ def judge(ctx: Ctx, c: Any, frames: List[List[Any]]) -> None:
     pairs = getattr(c, "_verif_pairs", [])
     info = dict(mode=str(mode), n_frames=len(frames), n_gt=c.num_ground_truth, dup=dup, history=[[None if a is None else (a["est"][0], a["est"][1][:3], a["gt"], int(a["correct"])) for a in fr] for fr in abst][:8])
     n_eval = 0
+    # The per-frame-pair values are read off a private method of the implementation; when that method is not what the
+    # implementation goes through (it was inlined, renamed, its parameters changed), the history is judged on the totals.
+    pairs_seen = len(pairs) == max(0, len(frames) - 1)
+    totB = [0.0, 0.0, 0, 0.0]
     for i in range(1, len(abst)):
         tp, fp, sw, score, of, carry = ref_pair(abst[i - 1], abst[i])
+        b_tp, b_fp, b_sw, b_sc, _, _ = ref_pair(abst[i - 1], abst[i], "current")
         order_free = order_free and of
         carry_total += carry
         n_cur = sum(1 for a in abst[i] if a is not None)
         n_eval += n_cur
-        if i - 1 < len(pairs):
+        if pairs_seen:
             o_tp, o_fp, o_sw, o_sc = pairs[i - 1][2]
             ctx.count("CLEAR.pairs_checked")
             ctx.check(close(o_tp + o_fp, float(n_cur), 1e-9, 0), "C05/result_not_exactly_one_of_tp_fp", dict(info, frame=i, tp=o_tp, fp=o_fp, evaluated=n_cur), tap)
             if of and not dup:
                 okA = close(o_tp, tp, 1e-9, 0) and close(o_fp, fp, 1e-9, 0) and o_sw == sw and close(o_sc, score, 1e-7, 1e-9)
                 if not okA:
-                    b_tp, b_fp, b_sw, b_sc, _, _ = ref_pair(abst[i - 1], abst[i], "current")
                     okA = close(o_tp, b_tp, 1e-9, 0) and close(o_fp, b_fp, 1e-9, 0) and o_sw == b_sw and close(o_sc, b_sc, 1e-7, 1e-9)
                 else:
                     ctx.count("CLEAR.pairs_match_documented_carry_over")
@@ -196,9 +203,13 @@ def judge(ctx: Ctx, c: Any, frames: List[List[Any]]) -> None:
         tot[1] += fp
         tot[2] += sw
         tot[3] += score
-    ctx.check(len(pairs) == max(0, len(frames) - 1), "C05/frame_pairs_not_all_evaluated", dict(info, pairs=len(pairs)), tap)
+        totB[0] += b_tp
+        totB[1] += b_fp
+        totB[2] += b_sw
+        totB[3] += b_sc
     ctx.check(close(c.tp + c.fp, float(n_eval), 1e-9, 0), "C05/result_not_exactly_one_of_tp_fp", dict(info, tp=c.tp, fp=c.fp, evaluated=n_eval), tap)
-    if len(pairs) == max(0, len(frames) - 1):
+    if pairs_seen:
+        ctx.count("CLEAR.histories_compared_with_definition")
         obs = [sum(p[2][0] for p in pairs), sum(p[2][1] for p in pairs), sum(p[2][2] for p in pairs), sum(p[2][3] for p in pairs)]
         ctx.check(
             close(c.tp, obs[0], 1e-9, 0) and close(c.fp, obs[1], 1e-9, 0) and c.id_switch == obs[2] and close(c.tp_matching_score, obs[3], 1e-7, 1e-9),
@@ -206,6 +217,16 @@ def judge(ctx: Ctx, c: Any, frames: List[List[Any]]) -> None:
             dict(info, observed=[c.tp, c.fp, c.id_switch, c.tp_matching_score], expected=obs),
             tap,
         )
+    else:
+        ctx.count("CLEAR.pair_hook_unobserved")
+        if order_free and not dup:
+            ctx.count("CLEAR.histories_compared_with_definition")
+
+            def same(t):
+                return close(c.tp, t[0], 1e-9, 0) and close(c.fp, t[1], 1e-9, 0) and c.id_switch == t[2] and close(c.tp_matching_score, t[3], 1e-7, 1e-9)
+
+            # (one implementation follows one carry-over model throughout a history)
+            ctx.check(same(tot) or same(totB), "C05/history_totals_differ_from_definition", dict(info, observed=[c.tp, c.fp, c.id_switch, c.tp_matching_score], expected=tot, expected_alt=totB), tap)
     # the score formulas are asserted on the library's own totals too (independent of the history oracle)
     n_gt = c.num_ground_truth
     exp_mota = float("inf") if n_gt == 0 else max(0.0, (c.tp - c.fp - c.id_switch) / n_gt)
